@@ -181,7 +181,9 @@ class World:
         try:
             sub = Interp(self, it.path, spec=it.spec)
             return sub.eval(v, Frame(module=module))
-        except Unsupported:
+        except Unsupported as e:
+            if os.environ.get('PYVC_DEBUG'):
+                print('global %s.%s opaque: %s' % (module.name, name, e))
             return Opaque('%s.%s' % (module.name, name))
 
     def import_module(self, full):
